@@ -79,8 +79,9 @@ def gen_(rng, i, tier):
                 "flag": rng.choice([None, True, False])}
     if r < 0.90:
         which = rng.choice(["Q", "h", "J"])
-        t = G.quad_terms(rng, 'int', spin=(which != "Q"))
-        return {"op": "export", "which": which, "terms": G.jraw(t)}
+        lab = rng.random() < 0.5          # the labelled QUBO / QUSO classes inherit Q, h, J
+        t = G.quad_terms(rng, 'pool' if lab else 'int', spin=(which != "Q"))
+        return {"op": "export", "which": which, "terms": G.jraw(t), "lab": lab}
     if r < 0.96:
         t = G.quad_terms(rng, 'int')
         if rng.random() < 0.8:
@@ -145,7 +146,7 @@ def run_impl(case):
                     "enum_kind": type(enum).__name__}
         if op == "export":
             w = case["which"]
-            obj = build("QUBOMatrix" if w == "Q" else "QUSOMatrix", case["terms"])
+            obj = build(("QUBO" if w == "Q" else "QUSO") + ("" if case.get("lab") else "Matrix"), case["terms"])
             r = getattr(obj, w)
             if w == "h":
                 r = {(k,): v for k, v in r.items()}
@@ -195,7 +196,7 @@ def literal(case, out):
         cin = "ConvSol %s %s [%s] %s" % (KIND[case["kind"]], tl(case["terms"]),
                                          "; ".join("(%d%%nat, (%d)%%Z)" % (i, v) for i, v in enumerate(case["vals"])), C.boolc(flag))
     elif op == "export":
-        cin = "%s %s" % ({"Q": "ExportQ", "h": "ExportH", "J": "ExportJ"}[case["which"]], tl(case["terms"]))
+        cin = "%s %s %s" % ({"Q": "ExportQ", "h": "ExportH", "J": "ExportJ"}[case["which"]], C.boolc(bool(case.get("lab"))), tl(case["terms"]))
     elif op == "tomatrix":
         cin = "ToMatrix %s %s" % (tl(case["terms"]), C.boolc(case["sym"]))
     else:
